@@ -754,3 +754,9 @@ V('c18-handler-in-filter-list', 'C18', 'C18.R7',
   ('pywbem/_subscription_manager.py', "                    or inst.path.keybindings['Handler'] in \\\n                    owned_destination_paths:", "                    or inst.path.keybindings['Filter'] in \\\n                    owned_destination_paths:"), 'end-kind-mismatch')
 V('c20-unclaimed-truthiness', 'C20', 'C20.R7',
   ('pywbem/_valuemapping.py', "        if self._b2v_unclaimed is not None:\n            return self._b2v_unclaimed", "        if self._b2v_unclaimed:\n            return self._b2v_unclaimed"), 'truthiness-of-sentinel')
+
+# ---- C02.R2c ------------------------------------------------------------------
+V('c02-tag-confusion-error', 'C02', 'C02.R2c',
+  ('pywbem/_cim_operations.py', "        if tup_tree and _is_element_node(tup_tree[0], 'ERROR'):\n            # The operation failed", "        if tup_tree and tup_tree[0][0] == 'ERROR':\n            # The operation failed"), 'tag-confusion')
+V('c02-tag-confusion-helper', 'C02', 'C02.R2c',
+  ('pywbem/_cim_operations.py', "    return node[0] == name and isinstance(node[1], dict)", "    return node[0] == name"), 'tag-confusion')
